@@ -160,7 +160,7 @@ def run(ctx):
     recs = []
     # (a) specification -> code: coarse schedules simulated from Stream.tla with the real constants
     nsim = 0
-    for label, cfg, num in (("nofail", sim_cfg(120, 40, "NoFailSim", "FALSE"), 2 if q else 12),
+    for label, cfg, num in (("nofail", sim_cfg(120, 40, "NoFailSim", "FALSE"), 2 if q else 20),
                             ("fail", sim_cfg(90, 0, "SimFail", "FALSE"), 2 if q else 12),
                             ("shutdown", sim_cfg(90, 30, "NoFailSim", "TRUE"), 1 if q else 6)):
         p, n = pipeline.gen_tlc(ctx, "StreamSim", cfg, "StreamSim[%s]" % label, "sim-" + label, simulate=num, depth=14000,
@@ -175,7 +175,7 @@ def run(ctx):
         nsim += n
         recs += run_rig(ctx, p, race=False)
     # (b) code -> specification: free-running / randomly scheduled executions under the race detector
-    p, nrnd = gen_random(ctx, 18 if q else 180)
+    p, nrnd = gen_random(ctx, 20 if q else 300)
     recs += run_rig(ctx, p, race=True)
     ctx.extra.update(simulated_schedules=nsim, random_executions=nrnd, distinct_nontrivial=nsim + nrnd)
     viol, known = pipeline.settle(ctx, SUB, JUDGE, "", recs, sig=lambda r: r.get("pred", "?"))
